@@ -3,6 +3,7 @@ import NutsModel.C20.Strict
 import NutsModel.C20.Outbound
 import NutsModel.C20.Sources
 import NutsModel.C20.Engines
+import NutsModel.C20.FlagsSql
 import NutsModel.Facts.C20
 open Lean Nuts.Drv Nuts.C18 Nuts.C20 Nuts
 
@@ -157,7 +158,33 @@ def step (st : Unit) (j : Json) : Unit × List String :=
                               trustLen := if parts.contains 't' then 9 else 0 }
         let cfg := { configOf j with tls := Nuts.Facts.C20.tlsEnabled f.certLen f.keyLen f.trustLen }
         showOutcome "sys" (jBool j "iammatrix") cfg (startFiles Nuts.Facts.C20.tlsEnabled tlds l2s cfg f)
+      else if jHas j "sqlconn" then
+        -- storage step on the connection STRING (adapter switch regenerated). `prior` (an earlier lenient run left
+        -- <datadir>/sqlite.db behind) is deliberately NOT read: the data directory's content is no input of the decision
+        let conn := bytesOf (jStr j "sqlconn")
+        let dflt := Nuts.Facts.C20.sqliteDefaultPrefix ++ bytesOf "$DIR/sqlite.db?_pragma=foreign_keys(1)&journal_mode(WAL)"
+        let cfg := { configOf j with sqlExplicit := conn.length ≠ 0 }
+        showOutcome "sys" (jBool j "iammatrix") cfg (startConn Nuts.Facts.C20.sqlAdapters tlds l2s (configOf j) conn dflt)
       else showOutcome "sys" (jBool j "iammatrix") (configOf j) (start tlds l2s (configOf j))
+    | "cflag" =>
+      -- loadFromFlagSet / NewClientConfigForCommand over the CLI client's flag set plus a command's own flags
+      -- (`names` = all flags in VisitAll order, `args` = the ones set on the command line); suffixes REGENERATED
+      let setArgs : List (String × String) := (jStrs j "args").map fun a =>
+        match a.splitOn "=" with
+        | n :: v => (n, String.intercalate "=" v)
+        | [] => (a, "")
+      let flags : List Flag := (jStrs j "names").map fun n =>
+        match setArgs.find? (fun p => p.1 == n) with
+        | some p => { name := bytesOf n, changed := true, value := bytesOf p.2 }
+        | none => { name := bytesOf n, changed := false, value := [] }
+      let env : Option Bytes := if jHas j "envtoken" then some (bytesOf (jStr j "envtoken")) else none
+      match loadFromFlagSet Nuts.Facts.C20.secretSuffixes flags with
+      | some n => "cflag refuse:cli-secret:" ++ hx n
+      | none =>
+        match clientToken Nuts.Facts.C20.secretSuffixes flags env with
+        | .ok t => "cflag ok token=" ++ hx t
+        | .err e => "cflag error:" ++ e
+        | .panic p => "cflag panic:" ++ p
     | "ctx" =>
       if contextPasses (jBool j "strict") ((jStrs j "allow").map bytesOf) (unhx (jStr j "s")) then "ctx passed" else "ctx refused"
     | "flags" =>
